@@ -683,27 +683,11 @@ func runConstRel(c *core.Ctx) []core.Obligation {
 			fmt.Sprintf("big.Float precision %d bits >= %d bits, enough for exact dot and cross products of any finite float64 vectors", v, need),
 			fmt.Sprintf("big.Float precision %d bits is below the %d bits an exact product-sum of arbitrary float64 coordinates needs: the 'exact' predicates silently round when coordinates of very different magnitude are mixed", v, need))
 	}
-	// (3) stableSign: bound multiplies norms of two different vectors
+	// (3) stableSign: the error bound is proportional to the lengths of the SAME two vectors whose cross product is the determinant
 	if fn := c.Fn("s2", "", "stableSign"); fn != nil {
-		ok := false
-		why := "no product of two Norm2() values found in the error bound"
-		core.AllInstrs(fn, func(in ssa.Instruction) {
-			bo, isBo := in.(*ssa.BinOp)
-			if !isBo || bo.Op != token.MUL {
-				return
-			}
-			cx, okx := bo.X.(*ssa.Call)
-			cy, oky := bo.Y.(*ssa.Call)
-			if !okx || !oky || core.StaticCallee(cx) == nil || core.StaticCallee(cy) == nil || core.StaticCallee(cx).Name() != "Norm2" || core.StaticCallee(cy).Name() != "Norm2" {
-				return
-			}
-			if cx.Call.Args[0] != cy.Call.Args[0] && !sameContainer(cx.Call.Args[0], cy.Call.Args[0]) {
-				ok = true
-			} else {
-				why = "the error bound uses |e1|^2 * |e1|^2: it must be proportional to the lengths of BOTH edge vectors (|e1| * |e2|); with e1 much shorter than e2 the bound is far too small and rounding noise is returned as a definite sign"
-			}
-		})
-		add("stableSign:bound-uses-both-edges", c.Pos(fn.Pos()), core.FuncName(fn), ok, "the stable determinant's error bound is detErrorMultiplier * sqrt(|e1|^2 * |e2|^2)", why)
+		ok, why := stableBoundPairs(fn)
+		add("stableSign:bound-uses-both-edges", c.Pos(fn.Pos()), core.FuncName(fn), ok,
+			"on every path the stable determinant's error bound is detErrorMultiplier * |e1| * |e2| for the two edge vectors e1, e2 whose cross product is the determinant", why)
 	}
 	// (4) useConservativeCellDistance: zero.less(limit - maxError)
 	if fn := c.Fn("s2", "EdgeQuery", "findEdgesInternal"); fn != nil {
@@ -730,4 +714,101 @@ func runConstRel(c *core.Ctx) []core.Obligation {
 	}
 	_ = sort.Strings
 	return obs
+}
+
+// stableBoundPairs checks, path by path, that the two vectors whose squared lengths are multiplied in stableSign's
+// error bound are the two operands of the cross product the determinant is computed from.
+func stableBoundPairs(fn *ssa.Function) (bool, string) {
+	callee := func(v ssa.Value, name string) *ssa.Call {
+		call, ok := v.(*ssa.Call)
+		if !ok || core.StaticCallee(call) == nil || core.StaticCallee(call).Name() != name {
+			return nil
+		}
+		return call
+	}
+	// determinant: Dot(Cross(E1, E2), op)
+	var e1, e2 ssa.Value
+	core.AllInstrs(fn, func(in ssa.Instruction) {
+		if call, ok := in.(*ssa.Call); ok && core.StaticCallee(call) != nil && core.StaticCallee(call).Name() == "Dot" && len(call.Call.Args) == 2 {
+			if cr := callee(call.Call.Args[0], "Cross"); cr != nil && len(cr.Call.Args) == 2 {
+				e1, e2 = cr.Call.Args[0], cr.Call.Args[1]
+			}
+		}
+	})
+	if e1 == nil {
+		return false, "the determinant e1.Cross(e2).Dot(op) was not found"
+	}
+	// lengths(v): the vectors whose lengths are multiplied in v, per incoming edge when v is a phi
+	type pair struct{ a, b ssa.Value }
+	var lengths func(v ssa.Value, squared bool) (vecs []ssa.Value, ok bool)
+	lengths = func(v ssa.Value, squared bool) ([]ssa.Value, bool) {
+		if call := callee(v, "Norm2"); call != nil && squared {
+			return []ssa.Value{call.Call.Args[0]}, true
+		}
+		if call := callee(v, "Norm"); call != nil && !squared {
+			return []ssa.Value{call.Call.Args[0]}, true
+		}
+		if call := callee(v, "Sqrt"); call != nil && !squared {
+			return lengths(call.Call.Args[0], true)
+		}
+		if bo, ok := v.(*ssa.BinOp); ok && bo.Op == token.MUL {
+			x, okx := lengths(bo.X, squared)
+			y, oky := lengths(bo.Y, squared)
+			if okx && oky {
+				return append(x, y...), true
+			}
+		}
+		return nil, false
+	}
+	// the bound: K * Q (K constant) compared with the determinant
+	var bound ssa.Value
+	core.AllInstrs(fn, func(in ssa.Instruction) {
+		bo, ok := in.(*ssa.BinOp)
+		if !ok || bo.Op != token.MUL {
+			return
+		}
+		if _, isK := bo.X.(*ssa.Const); isK {
+			bound = bo.Y
+		} else if _, isK := bo.Y.(*ssa.Const); isK {
+			bound = bo.X
+		}
+	})
+	if bound == nil {
+		return false, "the error bound (constant * length product) was not found"
+	}
+	check := func(vecs []ssa.Value, a, b ssa.Value, where string) (bool, string) {
+		if len(vecs) != 2 {
+			return false, fmt.Sprintf("%sthe bound multiplies %d lengths, expected 2", where, len(vecs))
+		}
+		if (vecs[0] == a && vecs[1] == b) || (vecs[0] == b && vecs[1] == a) {
+			return true, ""
+		}
+		return false, where + "the error bound does not multiply the lengths of the two vectors whose cross product is taken (for instance the same length twice): with one edge much shorter than the other the bound is far too small and rounding noise is returned as a definite sign"
+	}
+	// unconditional form
+	if vecs, ok := lengths(bound, false); ok {
+		return check(vecs, e1, e2, "")
+	}
+	// per-path form: Sqrt(phi) or phi, with e1/e2 phis in the same block
+	inner, squared := bound, false
+	if call := callee(bound, "Sqrt"); call != nil {
+		inner, squared = call.Call.Args[0], true
+	}
+	phi, isPhi := inner.(*ssa.Phi)
+	p1, is1 := e1.(*ssa.Phi)
+	p2, is2 := e2.(*ssa.Phi)
+	if !isPhi || !is1 || !is2 || p1.Block() != phi.Block() || p2.Block() != phi.Block() {
+		return false, "the shape of the error bound was not recognised (expected constant * sqrt(|e1|^2 * |e2|^2) or a per-branch product)"
+	}
+	for i, in := range phi.Edges {
+		vecs, ok := lengths(in, squared)
+		if !ok {
+			return false, fmt.Sprintf("the error bound on the path through block %d is not a product of two vector lengths", phi.Block().Preds[i].Index)
+		}
+		if ok, why := check(vecs, p1.Edges[i], p2.Edges[i], fmt.Sprintf("on the path through block %d (%s) ", phi.Block().Preds[i].Index, phi.Block().Preds[i].Comment)); !ok {
+			return false, why
+		}
+	}
+	_ = pair{}
+	return true, ""
 }
